@@ -159,7 +159,7 @@ def ex_random_hypergraph(it):
         ok, out, err = (call(random_hypergraph, n, d) if seed is None else call(random_hypergraph, n, d, seed=seed))
     b = Binding("hg", list(range(n)))
     return {"fn": it["fn"], "n": n, "counts": [list(p) for p in counts], "hasseed": seed is not None,
-            "key": json.dumps([it["fn"], n, sorted(counts), seed]), "ok": ok, "err": err,
+            "key": json.dumps([it["fn"], n, counts, seed]), "ok": ok, "err": err,
             "out": b.state(out) if ok else EMPTY}
 
 
@@ -253,7 +253,7 @@ def plan(rng, tier):
 
     # random_hypergraph / random_uniform_hypergraph: every argument tuple is run with the same seed at least twice
     # (not back to back: other calls in between move the global generators), with other seeds and without a seed
-    for _ in range(120 if q else 800):
+    for _ in range(120 if q else 1200):
         n = rng.randint(0, 8)
         if rng.random() < 0.3 and n >= 1:
             counts = [[rng.randint(1, min(n, 4)), rng.randint(0, 6)]]
@@ -271,7 +271,7 @@ def plan(rng, tier):
     modes = [("default", {}), ("corr_target", None), ("corr_target_1", {"corr_target": 1}),
              ("uncorrelated", {"correlated": False}), ("num_shuffles", {"num_shuffles": 3}),
              ("correlated_explicit", {"correlated": True})]
-    for i in range(180 if q else 1800):
+    for i in range(180 if q else 2700):
         n = rng.randint(4, 9)
         zs = rng.sample([2, 3, 4], rng.randint(1, 3))
         counts = [[z, rng.randint(0, max(1, math.comb(n, z) // 2))] for z in zs]
@@ -281,14 +281,14 @@ def plan(rng, tier):
             kw = {"corr_target": rng.choice([0, 0.2, 0.5, 0.9])}
         items.append(dict(fn="scale_free_hypergraph", n=n, counts=counts, scales=scales, kw=kw, mode=name, **seeds()))
     # HOADmodel
-    for _ in range(240 if q else 2400):
+    for _ in range(240 if q else 3600):
         N = rng.randint(2, 6)
         orders = rng.sample(range(1, min(4, N) + 1), rng.randint(1, min(3, N, 4)))
         acts = [[o, [rng.choice([0, 1, 1, 0.5, 0.25, 0.0, 1.0]) for _ in range(N)]] for o in orders]
         pass_time = rng.random() < 0.9
         items.append(dict(fn="HOADmodel", n=N, acts=acts, time=rng.choice([0, 1, 2, 3, 5]), pass_time=pass_time, **seeds()))
     # add_random_edge(s)
-    for _ in range(360 if q else 3600):
+    for _ in range(360 if q else 5400):
         hg = rand_hg_spec(rng)
         nn = len({x for e in hg["edges"] for x in e["e"]} | set(hg["extra_nodes"]))
         size = rng.randint(1, min(4, nn))
@@ -297,7 +297,7 @@ def plan(rng, tier):
         items.append(dict(fn=fn, hg=hg, size=size, spelled=rng.choice(["size", "order"]), num=num,
                           inplace=rng.random() < 0.5, seed=rng.choice([None, rng.randrange(1000)]), **seeds()))
     # random_shuffle / random_shuffle_all_orders
-    for i in range(780 if q else 7800):
+    for i in range(780 if q else 11700):
         hg = rand_hg_spec(rng, dense=rng.random() < 0.6)
         sizes = sorted({len(e["e"]) for e in hg["edges"]})
         p = rng.choice([0, 0.0, 0.25, 0.5, 0.5, 0.75, 1, 1.0, round(rng.random(), 2)])
@@ -459,7 +459,10 @@ def replay(path):
     if "counts" in it:
         it["counts"] = [list(p) for p in it["counts"]]
     c = EXEC[it["fn"]](it)
-    rejects, _ = validate([c])
+    batch = [c]
+    if c.get("hasseed"):                      # SeedFunctional needs the call twice (from another state of the global generators)
+        batch.append(EXEC[it["fn"]](dict(it, py_seed=it["py_seed"] + 1, np_seed=it["np_seed"] + 1)))
+    rejects, _ = validate(batch)
     for _, failed in rejects:
         print("VIOLATION property=C14 replay=%s\n  what: %s" % (path, describe(it, c, failed)))
     print("C14 replay %s" % ("FAIL" if rejects else "PASS"))
